@@ -9,10 +9,12 @@ Init == s = <<>>
 AddM(o, r, cs, st, sk) == Len(s) < MaxLen /\ (~r => cs = {}) /\ s' = Append(s, [own |-> o, rep |-> r, cats |-> cs, stop |-> st, skip |-> sk])
 AddT(n, o, r, cs, st, sk) == Len(s) < MaxLen /\ (~r => cs = {}) /\ ~(st /\ sk /\ ~r) /\ s' = Append(s, [n |-> n, own |-> o, rep |-> r, cats |-> cs, stop |-> st, skip |-> sk])
 \* enum payload fields: `nv` starts a new variant (the first field always does); at most MaxLen fields in all
-AddV(nv, o, r, cs, pm, st, sk) == /\ Len(s) < MaxLen /\ (~r => cs = {} /\ ~pm) /\ (s = <<>> => nv)
-                                  /\ s' = Append(s, [v |-> (IF s = <<>> THEN 1 ELSE s[Len(s)].v + (IF nv THEN 1 ELSE 0)), own |-> o, rep |-> r, cats |-> cs, perm |-> pm, stop |-> st, skip |-> sk])
+\* vst: the variant that starts here carries a VARIANT-level #[o2o(stop_repeat)] -- it ends variant-level templates only, the field-level context
+\* (permeating or not) is not its business, so VEff ignores it
+AddV(nv, o, r, cs, pm, st, sk, vst) == /\ Len(s) < MaxLen /\ (~r => cs = {} /\ ~pm) /\ (s = <<>> => nv) /\ (vst => nv)
+                                  /\ s' = Append(s, [v |-> (IF s = <<>> THEN 1 ELSE s[Len(s)].v + (IF nv THEN 1 ELSE 0)), own |-> o, rep |-> r, cats |-> cs, perm |-> pm, stop |-> st, skip |-> sk, vst |-> vst])
 Next == IF Mode = "vfield"
-        THEN \E nv \in BOOLEAN, o \in OwnChoices, r \in BOOLEAN, cs \in RepChoices, pm \in BOOLEAN, st \in BOOLEAN, sk \in BOOLEAN : AddV(nv, o, r, cs, pm, st, sk)
+        THEN \E nv \in BOOLEAN, o \in OwnChoices, r \in BOOLEAN, cs \in RepChoices, pm \in BOOLEAN, st \in BOOLEAN, sk \in BOOLEAN, vst \in BOOLEAN : AddV(nv, o, r, cs, pm, st, sk, vst)
         ELSE IF Mode \in {"member", "variant"}
         THEN \E o \in OwnChoices, r \in BOOLEAN, cs \in RepChoices, st \in BOOLEAN, sk \in BOOLEAN : AddM(o, r, cs, st, sk)
         ELSE \E n \in TNames, o \in OwnChoices, r \in BOOLEAN, cs \in RepChoices, st \in BOOLEAN, sk \in BOOLEAN : AddT(n, o, r, cs, st, sk)
